@@ -607,14 +607,14 @@ def oracle(case, out):
         if case["refit"]:
             if bent is None:
                 break
+            if (o in ("u", "U") and ops[i][2] is None) or (o == "s" and ops[i][3] is None):
+                defaulted = True
             if outs[i] != bent["outsD"][i]:
                 if defaulted:
                     fails.append(("update:default-update_params-differs", "after update(y) with default arguments op %d %r: tuner %s, forecaster built with best params %s" % (i, ops[i], outs[i][:120], bent["outsD"][i][:120])))
                 else:
                     fails.append(("refit:%s-differs-from-direct-forecaster" % o, "op %d %r: tuner %s, forecaster built with best params and fitted on all of y %s" % (i, ops[i], outs[i][:120], bent["outsD"][i][:120])))
                 break
-            if (o in ("u", "U") and ops[i][2] is None) or (o == "s" and ops[i][3] is None):
-                defaulted = True
         else:
             if outs[i] != "E:notfitted":
                 fails.append(("norefit:%s-no-NotFittedError" % {"c": "cutoff", "p": "predict", "u": "update", "s": "update_predict_single", "U": "update_predict"}[o],
@@ -669,6 +669,8 @@ def _rand_cv(rng, n):
     k = rng.choice("se")
     wl = rng.randrange(2, max(3, n // 3))
     step = rng.randrange(1, 6)
+    while (n - wl - max(fh)) // step + 1 > 5:          # at most 5 folds (cost)
+        step += 1
     iw = None
     if k == "s" and rng.random() < 0.2 and wl + 1 + max(fh) < n:
         iw = rng.randrange(wl + 1, n - max(fh))
@@ -736,6 +738,14 @@ def _rand_grid(rng, fc):
         grid.append(d)
     if rng.random() < 0.05:
         grid.append({})
+    size = 0
+    for d in grid:
+        m = 1
+        for v in d.values():
+            m *= len(v)
+        size += m
+    if size > 8:                                       # at most 8 candidates (cost)
+        return _rand_grid(rng, fc)
     return grid
 
 
@@ -755,7 +765,7 @@ def _rand_tab(rng, nfmax=6):
 
 def _random_case(rng):
     fc = rng.choice(["score", "score", "ttf", "mux", "naive", "ttfnaive", "muxreal"])
-    n = rng.randrange(12, 31)
+    n = rng.randrange(10, 25)
     case = {"fc": fc, "search": "grid", "grid": _rand_grid(rng, fc), "cv": _rand_cv(rng, n), "n": n,
             "origin": rng.choice([0, 0, 5, -3]), "yseed": rng.randrange(1000),
             "strategy": rng.choice(["refit", "refit", "update"]), "refit": rng.random() < 0.8,
@@ -813,16 +823,16 @@ def gen_cases(tier, rng):
     # (A) exhaustive small scope: every vector of chosen mean scores over {0,1,2,NaN} for 1..4 candidates,
     #     both metric directions; refit / two-fold variants alternate
     idx = 0
-    rot = rng.randrange(8)
+    rot = rng.randrange(10)
     for k in range(1, 5):
         for vec in itertools.product(SCORE_VALUES, repeat=k):
             for gib in (False, True):
                 idx += 1
-                if tier == "quick" and idx % 8 != rot:
+                if tier == "quick" and idx % 10 != rot:
                     continue
                 cases.append(_small_case(list(vec), gib, idx % 3 != 0, idx % 5 == 0))
     # (B) structured random
-    for _ in range(170 if tier == "quick" else 3000):
+    for _ in range(110 if tier == "quick" else 1800):
         cases.append(_random_case(rng))
     # (C) malformed stream
     cases.extend(_malformed(rng))
